@@ -658,6 +658,13 @@ class ImporterRun(object):
                     self.offer(e, data, "root:" + kind, e.needs_pw, views=views)
                     if e.needs_pw:
                         self.offer(e, data, "root:" + kind, False, views=views)
+                if ":sec1priv-" in e.label:
+                    # RFC 5915 ECPrivateKey: parameters [0] and publicKey [1] are EXPLICIT tags around ONE element
+                    for kind, mut in M.explicit_wrapper_mutations(clear):
+                        data, views = self.wrap(e, mut)
+                        cls = "trailing-inside-explicit-tag"
+                        self.offer(e, data, cls, e.needs_pw, expect=("refuse", cls))
+                        self.ctx.count("explicit_wrapper_mutations")
                 if e.schema_max:
                     x = M.extra_members(clear, e.schema_max)
                     if x is not None:
